@@ -155,10 +155,16 @@ ScriptOf(e) == IF e.kind = "reply" THEN [k |-> "reply", status |-> e.status, bod
 \* an operation without output has no envelope to parse: any 2xx reply is a success
 Expect(e) == LET o == Outcome(e.violates, e.creds, ScriptOf(e)) IN
              IF ~e.has_out /\ e.kind = "reply" /\ e.status < 400 /\ ~e.violates THEN [o EXCEPT !.result = "ok"] ELSE o
+ErrClass(r) == r \notin {"ok", "panic", "timeout"}
+KindDrift(e) == LET x == Expect(e) IN
+  IF P = "C16" /\ ~e.violates /\ e.result # x.result /\ ErrClass(e.result) /\ ErrClass(x.result)
+  THEN PrintT(<<"DRIFT", ToJson([prop |-> P, id |-> cur.id, what |-> "error kind", subj |-> e.op \o "/" \o ToString(e.scn), model |-> x.result, code |-> e.result])>>)
+  ELSE TRUE
 CallViol(e) ==
   LET x == Expect(e)
       subj == e.op \o "/" \o ToString(e.scn) \o "/" \o e.kind \o "/" \o ToString(e.status) \o "/" \o e.body IN
-     {V("result", subj, x.result, e.result) : z \in {1} \cap (IF e.result = x.result THEN {} ELSE {1})}
+     \* C16 speaks of value / error, not of the error's kind: a different kind of error is drift (reported, no alarm)
+     {V("result", subj, x.result, e.result) : z \in {1} \cap (IF e.result = x.result \/ (P = "C16" /\ ErrClass(e.result) /\ ErrClass(x.result)) THEN {} ELSE {1})}
   \cup {V("one_post", subj, ToString(x.posts), ToString(e.posts)) : z \in {1} \cap (IF e.posts = x.posts THEN {} ELSE {1})}
   \cup {V("connections", subj, ToString(x.conns), ToString(e.accepted)) : z \in {1} \cap (IF e.accepted = x.conns THEN {} ELSE {1})}
   \cup {V("method_post", subj, "POST", e.method) : z \in {1} \cap (IF e.posts >= 1 /\ e.method # "POST" THEN {1} ELSE {})}
@@ -170,7 +176,7 @@ CallViol(e) ==
 
 TrCall ==
   /\ IsEvent("call")
-  /\ CASE P = "C16" -> Report({v \in CallViol(ev) : ~ev.violates}) /\ Count1
+  /\ CASE P = "C16" -> Report({v \in CallViol(ev) : ~ev.violates}) /\ KindDrift(ev) /\ Count1
        [] P = "C07" -> (IF ev.violates THEN Report({v \in CallViol(ev) : v.clause \in {"result", "connections", "one_post"}}) /\ Count1 ELSE TRUE)
        [] P = "C05" -> (IF ev.posts >= 1
                         THEN Report((IF ev.path = "/zv/items" THEN {} ELSE {V("posts_to_service_address", ev.op, "/zv/items", ev.path)})
